@@ -37,23 +37,26 @@
    timestamp pattern matches it; [dtspan] the (dt_beg, dt_end) byte positions of that timestamp
    in the line (only used to place colour).
 
+   SOURCE KINDS (second stage).  A source is a text log, a YEAR-LESS text log (process_missing_year =
+   Model/Year.v in front of the window and the merge), an accounting-record file (layout detection
+   Model/LayoutDetect.v, ordering core Model/Records.v, text Model/RecordRender.v), an event log
+   (Model/Evtx.v over the parser's enumeration) or a journal (Model/Journal.v, libsystemd an
+   oracle): [pkind], [worker_out] / [spec_out] per kind, [oracles] bundles the oracle functions.
+
    Out of the composed model (each is a hypothesis of program_correct or named in the check):
-   year-less notations (process_missing_year re-dates messages from context), non-text sources,
+   the container formats of event logs and journals, the early stop of the year walk at --dt-after,
    I/O errors, a print error (EPIPE), SIGINT. *)
 From Coq Require Import List NArith ZArith Bool Arith.
 Import ListNotations.
 From S4.Base Require Bytes Chunk.
 From S4.Spec Require LinesSpec WindowSpec.
+From Coq Require Sorted.
+From S4.Spec Require RecordsSpec JournalSpec.
 From S4.Model Require Lines Syslines Search Merge Coord Strftime Print Summary Gate.
+From S4.Model Require Calendar Year Records RecordRender LayoutDetect Evtx Journal.
+From S4.Gen Require FixedStructTables.
 
 (* ================================================================ inputs *)
-
-(* one named source: the string that -n / -p prepends (Summary.source), whether the container is
-   streamed (gz, ...: linear search) or seekable (plain: binary search), and the (decompressed) bytes *)
-Record pfile := mkPfile {
-  pf_src : Summary.source;
-  pf_streamed : bool;
-  pf_data : Chunk.file }.
 
 (* the options that reach the pipeline: the printing/summary options of Model/Summary.v and the
    resolved datetime window (-a / -b; C14 is the property about their resolution) *)
@@ -340,53 +343,319 @@ Section Oracles.
        Print.m_beg := fst (dtspan first);
        Print.m_end := snd (dtspan first) |}.
 
-  (* ============================================================== one worker (exec_syslogprocessor) *)
+  (* ============================================================== one text worker (exec_syslogprocessor) *)
 
   (* stage 1 (block-zero gate), then stage 2 + 3.  A file the gate rejects sends FileInfo and
-     FileSummary only.  Result: the NewMessage datums as print events (source index filled in by
-     the caller), and how the search ended *)
-  Definition worker_out (bs : N) (o : options) (pf : pfile) : list (Print.msg * bool) * gstatus :=
-    let f := pf_data pf in
+     FileSummary only.  Result: the NewMessage datums (message, is_last), and how the search ended *)
+  Definition text_worker (bs : N) (a b : option Z) (streamed : bool) (f : Chunk.file)
+    : list (Print.msg * bool) * gstatus :=
     match Gate.gate dated bs f with
     | Gate.FileOk =>
-        let '(out, st) := g_text_out r_sl (reader_find bs f) (Chunk.lenN f) (pf_streamed pf)
-                                     (op_after o) (op_before o) in
+        let '(out, st) := g_text_out r_sl (reader_find bs f) (Chunk.lenN f) streamed a b in
         (map (fun mb => (pmsg_of bs f (r_sys (fst mb)), snd mb)) out, st)
     | _ => ([], GOk)
     end.
 
-  Definition mk_events (i : nat) (l : list (Print.msg * bool)) : list Summary.event :=
-    map (fun mb => {| Summary.e_src := i; Summary.e_msg := fst mb; Summary.e_is_last := snd mb |}) l.
+  (* ============================================================== the text specification *)
 
-  Definition ev_t (e : Summary.event) : Z := Print.m_t (Summary.e_msg e).
+  (* a spec group as a printable message: one part per line *)
+  Definition spec_msg (g : LinesSpec.group) : Print.msg :=
+    {| Print.m_kind := Print.KSys;
+       Print.m_t := fst g;
+       Print.m_lines := map (fun l => [l]) (snd g);
+       Print.m_beg := fst (dtspan (hd [] (snd g)));
+       Print.m_end := snd (dtspan (hd [] (snd g))) |}.
 
-  (* ============================================================== A2: worker -> coordinator *)
+  (* the messages of one file inside the window, each with "is the file's last message" *)
+  Definition spec_file_msgs (a b : option Z) (f : Chunk.file) : list (LinesSpec.group * bool) :=
+    filter (fun gl => WindowSpec.in_window a b (fst (fst gl))) (mark_last (LinesSpec.syslines dated f)).
 
-  (* the coordinator acts on (PathId, position, instant) only *)
-  Definition tags_of (evs : list (list Summary.event)) : list (list Merge.msg) :=
-    Merge.tag_srcs (map (map ev_t) evs).
+  Definition text_spec (a b : option Z) (f : Chunk.file) : list (Print.msg * bool) :=
+    map (fun gl => (spec_msg (fst gl), snd gl)) (spec_file_msgs a b f).
 
-  (* ============================================================== A3: coordinator -> print site *)
+  (* the hypotheses of the component theorems, per text file *)
+  Definition file_chronological (f : Chunk.file) : Prop :=            (* C03 (binary search), C01 (closed form) *)
+    WindowSpec.nondecreasing fst (LinesSpec.syslines dated f) = true.
+  Definition file_msgs_2bytes (f : Chunk.file) : Prop :=              (* C03 bsearch_first_geq *)
+    Forall (fun g => 2 <= Chunk.lenN (LinesSpec.group_bytes g)) (LinesSpec.syslines dated f).
+  Definition span_ok : Prop :=                                        (* C13 variants_agree (dt_beg <= dt_end) *)
+    forall l, (fst (dtspan l) <= snd (dtspan l))%nat.
+  Definition file_ok (f : Chunk.file) : Prop :=
+    file_chronological f /\ file_msgs_2bytes f.
 
-  Definition dummy_msg : Print.msg :=
-    {| Print.m_kind := Print.KSys; Print.m_t := 0%Z; Print.m_lines := []; Print.m_beg := 0%nat; Print.m_end := 0%nat |}.
-  Definition dummy_event : Summary.event :=
-    {| Summary.e_src := 0%nat; Summary.e_msg := dummy_msg; Summary.e_is_last := false |}.
+  (* ============================================================== messages of the other kinds *)
 
-  (* the datum the coordinator holds for a printed tag (in the code the tag and the payload are
-     one value, `(LogMessage, is_last)`) *)
-  Definition ev_of (evs : list (list Summary.event)) (m : Merge.msg) : Summary.event :=
-    nth (Merge.m_pos m) (nth (Merge.m_src m) evs []) dummy_event.
+  (* a record / event / journal entry as a printable message: one part per line (a record: its whole
+     text is the one "line"; an event / entry: LinesSpec.lines of its text); dt_beg / dt_end from
+     the span oracle on the whole text *)
+  Definition kmsg (k : Print.kind) (t : Z) (lines : list Bytes.bytes) : Print.msg :=
+    {| Print.m_kind := k; Print.m_t := t;
+       Print.m_lines := map (fun l => [l]) lines;
+       Print.m_beg := fst (dtspan (concat lines));
+       Print.m_end := snd (dtspan (concat lines)) |}.
+End Oracles.
+
+(* ================================================================ events, tags, print site (all kinds) *)
+
+Definition mk_events (i : nat) (l : list (Print.msg * bool)) : list Summary.event :=
+  map (fun mb => {| Summary.e_src := i; Summary.e_msg := fst mb; Summary.e_is_last := snd mb |}) l.
+
+Definition ev_t (e : Summary.event) : Z := Print.m_t (Summary.e_msg e).
+
+(* A2, worker -> coordinator: the coordinator acts on (PathId, position, instant) only *)
+Definition tags_of (evs : list (list Summary.event)) : list (list Merge.msg) :=
+  Merge.tag_srcs (map (map ev_t) evs).
+
+Definition dummy_msg : Print.msg :=
+  {| Print.m_kind := Print.KSys; Print.m_t := 0%Z; Print.m_lines := []; Print.m_beg := 0%nat; Print.m_end := 0%nat |}.
+Definition dummy_event : Summary.event :=
+  {| Summary.e_src := 0%nat; Summary.e_msg := dummy_msg; Summary.e_is_last := false |}.
+
+(* A3, coordinator -> print site: the datum the coordinator holds for a printed tag (in the code
+   the tag and the payload are one value, `(LogMessage, is_last)`) *)
+Definition ev_of (evs : list (list Summary.event)) (m : Merge.msg) : Summary.event :=
+  nth (Merge.m_pos m) (nth (Merge.m_src m) evs []) dummy_event.
+
+Definition schedule := list Coord.event.
+
+Inductive outcome : Type :=
+| POk (r : list Print.out * Summary.summ)   (* stdout items, SummaryPrinted totals *)
+| PWorker (i : nat) (st : gstatus)          (* worker i ended abnormally (search error exit / panic / fuel / reader fault) *)
+| PSchedule                                 (* the schedule is not an execution of the coordinator *)
+| PNotFinal.                                (* ... or stops before every channel is disconnected *)
+
+(* stdout: each message canonically decorated (Print.decorate with the per-source options of
+   Summary.printer_opts: file field padded to the widest printed name, date field), then the
+   separator, then one newline for a text file's last message that lacks it.  [lasts] = the colour
+   each source's printer last selected (termcolor skips a repeated set_color) *)
+Fixpoint render (c : Summary.cli) (popt : nat -> Print.popts) (lasts : nat -> option Print.cls)
+         (evs : list Summary.event) : list Print.out :=
+  match evs with
+  | [] => []
+  | e :: r =>
+      let i := Summary.e_src e in
+      let '(o, l') := Print.sem (Print.decorate (popt i) (Summary.e_msg e)) (lasts i) in
+      o ++ Print.obs (Summary.trailer c e) ++ render c popt (Summary.fupd lasts i l') r
+  end.
+
+(* the same for colour off, as plain bytes: prefix ++ line for every line, separator, newline *)
+Definition render_bytes (c : Summary.cli) (popt : nat -> Print.popts) (evs : list Summary.event) : Bytes.bytes :=
+  flat_map (fun e => concat (map (fun l => Print.prefix (popt (Summary.e_src e)) (Summary.e_msg e) ++ l)
+                                 (Print.flat_lines (Summary.e_msg e)))
+                     ++ Summary.trailer c e) evs.
+
+Definition kind_eqb (a b : Print.kind) : bool :=
+  match a, b with
+  | Print.KSys, Print.KSys | Print.KFixed, Print.KFixed | Print.KEvtx, Print.KEvtx | Print.KJournal, Print.KJournal => true
+  | _, _ => false
+  end.
+Definition count_of (k : Print.kind) (evs : list Summary.event) : N :=
+  N.of_nat (length (filter (fun e => kind_eqb (Print.m_kind (Summary.e_msg e)) k) evs)).
+
+(* totals as measures of the output (only tallied with --summary): bytes that are not part of a
+   colour sequence, messages per kind, lines of TEXT messages only, earliest / latest instant *)
+Definition spec_totals (c : Summary.cli) (evs : list Summary.event) (stdout : list Print.out) : Summary.summ :=
+  if Summary.c_summary c then
+    {| Summary.u_bytes := Print.blen (Print.payload stdout);
+       Summary.u_lines := N.of_nat (length (concat (map (fun e => Print.m_lines (Summary.e_msg e))
+                                                    (filter (fun e => kind_eqb (Print.m_kind (Summary.e_msg e)) Print.KSys) evs))));
+       Summary.u_sys := count_of Print.KSys evs;
+       Summary.u_fixed := count_of Print.KFixed evs;
+       Summary.u_evtx := count_of Print.KEvtx evs;
+       Summary.u_journal := count_of Print.KJournal evs;
+       Summary.u_first := zmin_list (map ev_t evs);
+       Summary.u_last := zmax_list (map ev_t evs) |}
+  else Summary.summ0.
+
+(* ================================================================ source kinds *)
+
+(* what a named source is.  Text kinds carry their bytes in pf_data; a record file also; for an
+   event log and a journal the container format is outside the model: the source IS the
+   enumeration its parser library yields (the evtx crate; libsystemd, an oracle with contract J1) *)
+Inductive pkind : Type :=
+| KText                                          (* text log, notation with a year *)
+| KYearless (off mtime : Z)                      (* text log, year-less notation: fallback zone (s east of UTC),
+                                                    modification time (s since the epoch) *)
+| KRecords (hint : N) (layout : Bytes.bytes)     (* accounting records: the FileType hint from the name (C16) and
+                                                    the layout the file was written in (ground truth of the spec) *)
+| KEvtxFile (recs : list (option (Z * Bytes.bytes)))   (* event log: per enumerated record its creation instant (ns)
+                                                    and rendered text; None = a record the parser could not decode *)
+| KJournalFile (j : Journal.journal).            (* journal: entries in libsystemd's enumeration order *)
+
+Record pfile := mkPfile {
+  pf_src : Summary.source;      (* the string that -n / -p prepends *)
+  pf_streamed : bool;           (* text kinds: streamed container (gz, ...: linear search) or seekable (binary search) *)
+  pf_data : Chunk.file;         (* the (decompressed) bytes; [] for KEvtxFile / KJournalFile *)
+  pf_kind : pkind }.
+
+(* the oracles of the composed model *)
+Record oracles := mkOracles {
+  o_dated : list N -> option Z;                  (* instant of a line when a year-bearing pattern matches it *)
+  o_dtspan : list N -> nat * nat;                (* (dt_beg, dt_end) of the timestamp in a text (colour only) *)
+  o_ydate : list N -> option Year.ymsg;          (* (month, day, time of day) when a year-less pattern matches the line *)
+  o_f32 : Bytes.bytes -> Bytes.bytes;            (* format!("{}", f32) of the four bytes of an acct field *)
+  o_jtext : Journal.entry -> Bytes.bytes;        (* the text of a journal entry in the selected --journal-output *)
+  o_jinst : Journal.entry -> Z;                  (* JournalEntry::dt() in ns (source realtime when present) *)
+  o_sd_head : Journal.journal -> list Journal.entry;          (* libsystemd: seek_head + next* *)
+  o_sd_rt : Journal.journal -> Z -> list Journal.entry }.     (* libsystemd: seek_realtime_usec + next* *)
+
+Section Kinds.
+  Variable O : oracles.
+  Local Open Scope N_scope.
+
+  Let dated := o_dated O.
+  Let dtspan := o_dtspan O.
+
+  (* ============================================================== year-less text *)
+  (* SyslogProcessor::process_missing_year (Model/Year.v, C11) runs in stage 2 over the file's
+     messages and fixes the year of each; afterwards find_sysline answers with those instants.
+     Here: the messages are found with "a year-less pattern matches the line", assign_years gives
+     each its instant, and the text pipeline runs with the resulting line -> instant table.
+     (The early stop of the walk at --dt-after, C11 theorem 7, leaves the messages above it dated
+     in the filler year: not modelled; it cannot matter for a lower bound after the filler year.) *)
+  Definition ydated0 (l : list N) : option Z := option_map (fun _ => 0%Z) (o_ydate O l).
+  Definition yl_heads (f : Chunk.file) : list (list N) :=
+    map (fun g : LinesSpec.group => hd [] (snd g)) (LinesSpec.syslines ydated0 f).
+  Definition yl_msgs (f : Chunk.file) : list Year.ymsg :=
+    flat_map (fun h => match o_ydate O h with Some m => [m] | None => [] end) (yl_heads f).
+  Definition yl_table (off mtime : Z) (f : Chunk.file) : option (list (Bytes.bytes * Z)) :=
+    match Year.assign_years 2 off (Year.year_of_seconds off mtime) (yl_msgs f) with
+    | Some ys => Some (combine (yl_heads f) (map snd ys))
+    | None => None
+    end.
+  Definition yl_dated (tab : list (Bytes.bytes * Z)) (l : list N) : option Z :=
+    match o_ydate O l with Some _ => Bytes.assoc l tab | None => None end.
+
+  (* ============================================================== accounting records *)
+  (* FixedStructReader::new: the layout is chosen by score_file over the candidates of
+     filesz_to_types (Model/LayoutDetect.v, tables regenerated); preprocess_timevalues + the
+     process_entry_at loop (Model/Records.v, key (time value, offset)); an entry of 0xFF bytes
+     cannot be constructed and is dropped when reached; the text is FixedStruct::as_bytes
+     (Model/RecordRender.v) into the printer's buffer *)
+  Definition p_detect (hint : N) (file : Bytes.bytes) : option (option Bytes.bytes * Z) :=
+    LayoutDetect.score_file LayoutDetect.no_mem FixedStructTables.count_found_entries_max
+      (LayoutDetect.order_cands FixedStructTables.candidate_order
+         (LayoutDetect.filesz_candidates FixedStructTables.fixedstruct_layouts FixedStructTables.filesz_bonus
+            FixedStructTables.filesz_try_all FixedStructTables.fixedstruct_score FixedStructTables.score_bonus
+            hint (N.of_nat (length file))))
+      file.
+  Definition find_layout (n : Bytes.bytes) : option Records.layout :=
+    find (fun l => Bytes.beqb n (Records.l_name l)) FixedStructTables.fixedstruct_layouts.
+
+  (* tv_pair -> DateTimeL (convert_tvpair_to_datetime, 0 <= usec < 10^6) and back (the filter) *)
+  Definition tv_inst (t : RecordsSpec.tv) : Z := (fst t * 1000000000 + snd t * 1000)%Z.
+  Definition tv_of_ns (z : Z) : RecordsSpec.tv := ((z / 1000000000)%Z, ((z mod 1000000000) / 1000)%Z).
+  Definition all_ff (e : Bytes.bytes) : bool := forallb (N.eqb 255) e.
+
+  Definition rec_flag (sz : N) (file : Bytes.bytes) (fo : N) : bool := fo + sz =? N.of_nat (length file).
+  Definition rec_msg (L : Records.layout) (text : Bytes.bytes) (file : Bytes.bytes) (fo : N) : Print.msg :=
+    kmsg dtspan Print.KFixed (tv_inst (Records.decode_tv L (Records.slice fo (Records.l_size L) file))) [text].
+
+  Fixpoint records_render (L : Records.layout) (items : list RecordRender.ritem) (file : Bytes.bytes) (fos : list N)
+    : list (Print.msg * bool) * gstatus :=
+    match fos with
+    | [] => ([], GOk)
+    | fo :: r =>
+        match RecordRender.as_bytes (o_f32 O) FixedStructTables.print_buffer_cap items FixedStructTables.as_bytes_tail
+                                    (Records.slice fo (Records.l_size L) file) with
+        | RecordRender.ROk text =>
+            let '(out, st) := records_render L items file r in
+            ((rec_msg L text file fo, rec_flag (Records.l_size L) file fo) :: out, st)
+        | RecordRender.RFail _ => ([], GFaulted 10)
+        end
+    end.
+
+  Definition records_worker (a b : option Z) (hint : N) (file : Bytes.bytes) : list (Print.msg * bool) * gstatus :=
+    match p_detect hint file with
+    | Some (Some n, _) =>
+        match find_layout n, Bytes.assoc n FixedStructTables.fixedstruct_render with
+        | Some L, Some items =>
+            let sz := Records.l_size L in
+            match Records.records_sent (fun fo => all_ff (Records.slice fo sz file))
+                    (Records.records_out_K2 (option_map tv_of_ns a) (option_map tv_of_ns b) sz (Records.file_tvs L file)) with
+            | Records.WDone fos => records_render L items file fos
+            | Records.WOutOfFuel _ => ([], GNoFuel)
+            end
+        | _, _ => ([], GFaulted 11)
+        end
+    | Some (None, _) => ([], GOk)            (* FileErrNoHighScore: FileInfo and FileSummary only *)
+    | None => ([], GFaulted 12)              (* a scored C string without NUL inside the struct *)
+    end.
+
+  (* spec: the non-null, constructible records inside the window (bounds truncated to the
+     microsecond of the time value), stable-sorted by time value — equal times keep file order —
+     each rendered in the file's own layout *)
+  Definition records_kept (a b : option Z) (L : Records.layout) (file : Bytes.bytes) : list RecordsSpec.rec :=
+    filter (fun r => negb (all_ff (Records.slice (RecordsSpec.r_fo r) (Records.l_size L) file)))
+           (filter (RecordsSpec.rec_keep (option_map tv_of_ns a) (option_map tv_of_ns b))
+                   (RecordsSpec.index_recs (Records.l_size L) 0 (Records.file_tvs L file))).
+  Definition records_spec (a b : option Z) (lname : Bytes.bytes) (file : Bytes.bytes) : list (Print.msg * bool) :=
+    match find_layout lname, Bytes.assoc lname FixedStructTables.fixedstruct_render with
+    | Some L, Some items =>
+        let sz := Records.l_size L in
+        map (fun r => (rec_msg L (RecordRender.render (o_f32 O) items FixedStructTables.as_bytes_tail
+                                    (Records.slice (RecordsSpec.r_fo r) sz file)) file (RecordsSpec.r_fo r),
+                       rec_flag sz file (RecordsSpec.r_fo r)))
+            (RecordsSpec.stable_sort_by_time (records_kept a b L file))
+    | _, _ => []
+    end.
+
+  (* ============================================================== event logs *)
+  Definition evtx_times (recs : list (option (Z * Bytes.bytes))) : list (option Z) := map (option_map fst) recs.
+  Definition evtx_msg (recs : list (option (Z * Bytes.bytes))) (i : N) : Print.msg * bool :=
+    match nth (N.to_nat i) recs None with
+    | Some (t, text) => (kmsg dtspan Print.KEvtx t (LinesSpec.lines text), false)
+    | None => (kmsg dtspan Print.KEvtx 0%Z [], false)
+    end.
+  Definition evtx_worker (a b : option Z) (recs : list (option (Z * Bytes.bytes))) : list (Print.msg * bool) * gstatus :=
+    match Evtx.evtx_out a b (evtx_times recs) with
+    | Evtx.DDone idx => (map (evtx_msg recs) idx, GOk)
+    | Evtx.DOutOfFuel _ => ([], GNoFuel)
+    end.
+  Definition evtx_spec (a b : option Z) (recs : list (option (Z * Bytes.bytes))) : list (Print.msg * bool) :=
+    map (fun e => evtx_msg recs (RecordsSpec.e_idx e))
+        (RecordsSpec.spec_events a b (RecordsSpec.index_evs 0 (evtx_times recs))).
+
+  (* ============================================================== journals *)
+  Definition us_of_ns (z : Z) : Z := (z / 1000)%Z.      (* DateTime::timestamp_micros *)
+  Definition journal_msg (e : Journal.entry) : Print.msg * bool :=
+    (kmsg dtspan Print.KJournal (o_jinst O e) (LinesSpec.lines (o_jtext O e)), false).
+  Definition journal_worker (a b : option Z) (j : Journal.journal) : list (Print.msg * bool) * gstatus :=
+    (map journal_msg (Journal.journal_run (o_sd_head O) (o_sd_rt O) Journal.stop_after
+                                          (option_map us_of_ns a) (option_map us_of_ns b) j), GOk).
+  Definition journal_spec (a b : option Z) (j : Journal.journal) : list (Print.msg * bool) :=
+    map journal_msg (JournalSpec.window Journal.e_time (option_map us_of_ns a) (option_map us_of_ns b) j).
+
+  (* ============================================================== one worker, one source of the spec *)
+  Definition worker_out (bs : N) (o : options) (pf : pfile) : list (Print.msg * bool) * gstatus :=
+    let a := op_after o in let b := op_before o in
+    match pf_kind pf with
+    | KText => text_worker dated dtspan bs a b (pf_streamed pf) (pf_data pf)
+    | KYearless off mtime =>
+        match yl_table off mtime (pf_data pf) with
+        | Some tab => text_worker (yl_dated tab) dtspan bs a b (pf_streamed pf) (pf_data pf)
+        | None => ([], GFaulted 20)          (* a message that has no date in a candidate year (Issue #245) *)
+        end
+    | KRecords hint _ => records_worker a b hint (pf_data pf)
+    | KEvtxFile recs => evtx_worker a b recs
+    | KJournalFile j => journal_worker a b j
+    end.
+
+  Definition spec_out (o : options) (pf : pfile) : list (Print.msg * bool) :=
+    let a := op_after o in let b := op_before o in
+    match pf_kind pf with
+    | KText => text_spec dated dtspan a b (pf_data pf)
+    | KYearless off mtime =>
+        match yl_table off mtime (pf_data pf) with
+        | Some tab => text_spec (yl_dated tab) dtspan a b (pf_data pf)
+        | None => []
+        end
+    | KRecords _ lname => records_spec a b lname (pf_data pf)
+    | KEvtxFile recs => evtx_spec a b recs
+    | KJournalFile j => journal_spec a b j
+    end.
 
   (* ============================================================== the composed code-level model *)
-
-  Definition schedule := list Coord.event.
-
-  Inductive outcome : Type :=
-  | POk (r : list Print.out * Summary.summ)   (* stdout items, SummaryPrinted totals *)
-  | PWorker (i : nat) (st : gstatus)          (* worker i ended abnormally (search error exit / panic / fuel) *)
-  | PSchedule                                 (* the schedule is not an execution of the coordinator *)
-  | PNotFinal.                                (* ... or stops before every channel is disconnected *)
 
   (* all workers, in PathId order; the first abnormal one is reported *)
   Fixpoint workers (bs : N) (o : options) (i : nat) (files : list pfile)
@@ -423,20 +692,8 @@ Section Oracles.
 
   (* ============================================================== the specification *)
 
-  (* a spec group as a printable message: one part per line *)
-  Definition spec_msg (g : LinesSpec.group) : Print.msg :=
-    {| Print.m_kind := Print.KSys;
-       Print.m_t := fst g;
-       Print.m_lines := map (fun l => [l]) (snd g);
-       Print.m_beg := fst (dtspan (hd [] (snd g)));
-       Print.m_end := snd (dtspan (hd [] (snd g))) |}.
-
-  (* the messages of one file inside the window, each with "is the file's last message" *)
-  Definition spec_file_msgs (a b : option Z) (f : Chunk.file) : list (LinesSpec.group * bool) :=
-    filter (fun gl => WindowSpec.in_window a b (fst (fst gl))) (mark_last (LinesSpec.syslines dated f)).
-
   Definition spec_file_events (o : options) (i : nat) (pf : pfile) : list Summary.event :=
-    mk_events i (map (fun gl => (spec_msg (fst gl), snd gl)) (spec_file_msgs (op_after o) (op_before o) (pf_data pf))).
+    mk_events i (spec_out o pf).
 
   Fixpoint spec_sources_from (o : options) (i : nat) (files : list pfile) : list (list Summary.event) :=
     match files with
@@ -449,37 +706,6 @@ Section Oracles.
   (* all messages in the window, stable-sorted by instant: ties keep source order, then file order *)
   Definition spec_events (o : options) (files : list pfile) : list Summary.event :=
     stable_sort_by ev_t (concat (spec_sources o files)).
-
-  (* stdout: each message canonically decorated (Print.decorate with the per-source options of
-     Summary.printer_opts: file field padded to the widest printed name, date field), then the
-     separator, then one newline for a file's last message that lacks it.  [lasts] = the colour
-     each source's printer last selected (termcolor skips a repeated set_color) *)
-  Fixpoint render (c : Summary.cli) (popt : nat -> Print.popts) (lasts : nat -> option Print.cls)
-           (evs : list Summary.event) : list Print.out :=
-    match evs with
-    | [] => []
-    | e :: r =>
-        let i := Summary.e_src e in
-        let '(o, l') := Print.sem (Print.decorate (popt i) (Summary.e_msg e)) (lasts i) in
-        o ++ Print.obs (Summary.trailer c e) ++ render c popt (Summary.fupd lasts i l') r
-    end.
-
-  (* the same for colour off, as plain bytes: prefix ++ line for every line, separator, newline *)
-  Definition render_bytes (c : Summary.cli) (popt : nat -> Print.popts) (evs : list Summary.event) : Bytes.bytes :=
-    flat_map (fun e => concat (map (fun l => Print.prefix (popt (Summary.e_src e)) (Summary.e_msg e) ++ l)
-                                   (Print.flat_lines (Summary.e_msg e)))
-                       ++ Summary.trailer c e) evs.
-
-  (* totals as measures of the output (only tallied with --summary) *)
-  Definition spec_totals (c : Summary.cli) (evs : list Summary.event) (stdout : list Print.out) : Summary.summ :=
-    if Summary.c_summary c then
-      {| Summary.u_bytes := Print.blen (Print.payload stdout);
-         Summary.u_lines := N.of_nat (length (concat (map (fun e => Print.m_lines (Summary.e_msg e)) evs)));
-         Summary.u_sys := N.of_nat (length evs);
-         Summary.u_fixed := 0; Summary.u_evtx := 0; Summary.u_journal := 0;
-         Summary.u_first := zmin_list (map ev_t evs);
-         Summary.u_last := zmax_list (map ev_t evs) |}
-    else Summary.summ0.
 
   Definition program_spec (o : options) (files : list pfile) : list Print.out * Summary.summ :=
     let c := op_cli o in
@@ -495,25 +721,49 @@ Section Oracles.
     exists s', Coord.run cap (Coord.init (tags_of (spec_sources o files))) sched = Some s' /\
                Coord.final s' = true.
 
-  (* the hypotheses of the component theorems, per file *)
-  Definition file_chronological (f : Chunk.file) : Prop :=            (* C03 (binary search), C01 (closed form) *)
-    WindowSpec.nondecreasing fst (LinesSpec.syslines dated f) = true.
-  Definition file_msgs_2bytes (f : Chunk.file) : Prop :=              (* C03 bsearch_first_geq *)
-    Forall (fun g => 2 <= Chunk.lenN (LinesSpec.group_bytes g)) (LinesSpec.syslines dated f).
-  Definition span_ok : Prop :=                                        (* C13 variants_agree (dt_beg <= dt_end) *)
-    forall l, (fst (dtspan l) <= snd (dtspan l))%nat.
+  (* text of an event / entry ends with a newline (print_evtx_* / print_journalentry_* loop over
+     newline-terminated lines: a trailing fragment would be printed by the plain variant only) *)
+  Definition nl_terminated (t : Bytes.bytes) : Prop := t = [] \/ exists p, t = p ++ [10].
 
-  Definition file_ok (f : Chunk.file) : Prop :=
-    file_chronological f /\ file_msgs_2bytes f.
+  (* the hypotheses of the component theorems, per source kind *)
+  Definition src_ok (o : options) (pf : pfile) : Prop :=
+    match pf_kind pf with
+    | KText => file_ok dated (pf_data pf)                                   (* C03, C01 *)
+    | KYearless off mtime =>                                                (* C11: the walk dates every message *)
+        exists tab, yl_table off mtime (pf_data pf) = Some tab /\ file_ok (yl_dated tab) (pf_data pf)
+    | KRecords hint lname =>
+        let f := pf_data pf in
+        (exists s, p_detect hint f = Some (Some lname, s)) /\                (* C08 detection picks the file's layout *)
+        (exists L items, find_layout lname = Some L /\ Bytes.assoc lname FixedStructTables.fixedstruct_render = Some items /\
+           (* valid timevals: the order of the time values is the order of the instants *)
+           Forall (fun r => (0 <= snd (RecordsSpec.r_tv r) < 1000000)%Z) (records_kept (op_after o) (op_before o) L f)) /\
+        Forall (fun b => b < 256) f /\                                      (* C08 as_bytes_is_render *)
+        (forall b4, (length (o_f32 O b4) <= 64)%nat)
+    | KEvtxFile recs =>
+        Forall (fun r => match r with Some (_, t) => nl_terminated t | None => True end) recs
+    | KJournalFile j =>
+        Journal.J1_contract (o_sd_head O) (o_sd_rt O) /\                    (* C09 *)
+        Journal.nondecreasing (Journal.times j) /\ Journal.valid_realtimes (Journal.times j) /\
+        JournalSpec.bound_rep (option_map us_of_ns (op_after o)) /\ JournalSpec.bound_rep (option_map us_of_ns (op_before o)) /\
+        Forall (fun e => nl_terminated (o_jtext O e)) j /\
+        Sorted.StronglySorted Z.le (map (o_jinst O)                         (* the merge instants do not step back *)
+           (JournalSpec.window Journal.e_time (option_map us_of_ns (op_after o)) (option_map us_of_ns (op_before o)) j))
+    end.
 
-  Definition domain (files : list pfile) : Prop :=
-    span_ok /\ Forall (fun pf => file_ok (pf_data pf)) files.
+  Definition domain (o : options) (files : list pfile) : Prop :=
+    span_ok dtspan /\ Forall (src_ok o) files.
 
-  (* stage 1 accepted every file at this block size (C12: the gate is NOT block-size independent,
-     findings F3a/F3b/F3c; hence a hypothesis that names the block size) *)
+  (* stage 1 accepted every TEXT file at this block size (C12: the gate is NOT block-size
+     independent, findings F3a-d; hence a hypothesis that names the block size) *)
   Definition gate_passed (bs : N) (files : list pfile) : Prop :=
-    Forall (fun pf => Gate.gate dated bs (pf_data pf) = Gate.FileOk) files.
-End Oracles.
+    Forall (fun pf => match pf_kind pf with
+                      | KText => Gate.gate dated bs (pf_data pf) = Gate.FileOk
+                      | KYearless off mtime =>
+                          forall tab, yl_table off mtime (pf_data pf) = Some tab ->
+                                      Gate.gate (yl_dated tab) bs (pf_data pf) = Gate.FileOk
+                      | _ => True
+                      end) files.
+End Kinds.
 
 (* the undecorated run of the same invocation: no prepended field, no separator, no colour *)
 Definition undecorated (c : Summary.cli) : Summary.cli :=
